@@ -352,3 +352,5 @@ CHECKS["C10"]["explanation"] += " Also: installSnapshot's durable snapshot recor
 H_AE_CONFIG = {"fn": "vh_ae_config", "what": "appendEntries carrying / truncating configuration entries: latest and committed configuration follow the log (truncation falls back to committed, received entry becomes latest, commit index commits it)",
                "bounds": "follower log of 2 entries with an uncommitted configuration entry, 1 request entry (Command or Configuration, duplicate or conflicting)", "covers": ["aeconfig.duplicate", "aeconfig.replaced-by-config", "aeconfig.replaced-by-command", "aeconfig.latest-committed"]}
 CHECKS["C07"]["harnesses"].append(H_AE_CONFIG)
+H_AE_CONFIG2 = {"fn": "vh_ae_config_append", "what": "a configuration entry appended after the follower's uncommitted latest configuration", "bounds": "1 entry", "covers": ["aeconfig.previous-latest-committed", "aeconfig.new-config-committed-at-once"]}
+CHECKS["C07"]["harnesses"].append(H_AE_CONFIG2)
